@@ -86,6 +86,24 @@ func runC14(c *vf.Case) {
 				s.left = n / 16
 			} else {
 				s.left = 2000
+				if r.Chance(1, 3) {
+					// the connection has carried a large write before (larger than its send buffer: written in several
+					// pieces, partly by the poller): nothing of that may show in the writes of the chain
+					big := make([]byte, r.Range(2<<20, 6<<20))
+					done := false
+					var berr error
+					o.FD.AsyncWriteAll(big, func(err error, n int) { done, berr = true, err })
+					for i := 0; i < 20000 && !done; i++ {
+						w.PeerDrain(o)
+						_, _ = w.IOC.PollOne()
+					}
+					if !done || berr != nil {
+						c.Failf("harness-setup", "the large write before the chain did not complete (done=%v err=%v)", done, berr)
+						return
+					}
+					w.PeerDrain(o)
+					c.Count("connections_that_carried_a_large_write_before_the_chain", 1)
+				}
 			}
 		case "fifo-read":
 			o, err := w.NewObj(sim.KFifoR, false)
